@@ -159,23 +159,42 @@ def run(ctx) -> None:
     for _ in range(4 if quick else 30):
         a, b = rng.sample(names, 2)
         hist.append([("use", a, False), ("pbuild", b, rng.random() < 0.3), ("use", b, False)])
-    if quick and len(hist) > 160:
-        head = hist[-45:]
-        hist = rng.sample(hist[:-45], 115) + head
+    # histories of measurements whose configurations share the binning (same trees) but differ in scales or only in
+    # the parameters of a custom cosmology: nothing kept in memory from the earlier measurement may leak into the later
+    vnames = ["A"] + list(cw.VARIANTS)
+    vh = [[("use", a, False), ("use", b, False)] for a, b in itertools.permutations(vnames, 2)]
+    for _ in range(6 if quick else 40):
+        vh.append([("use", rng.choice(vnames + names), False) for _ in range(rng.choice([3, 4]))])
+    hist += vh
+    keep = 45 + len(vh)
+    if quick and len(hist) > 115 + keep:
+        head = hist[-keep:]
+        hist = rng.sample(hist[:-keep], 115) + head
 
     with scratch("c07_") as base:
         aux = base / "aux"
         cw.prepare_aux(aux)
         src = base / "src"
         cw.make(src, "new")
-        ref = {}
-        for b in names:
+        # the reference: every configuration measured in a NEW process on its own fresh copy of the cache
+        ref = cw.measure_fresh_process(src, names + list(cw.VARIANTS), aux, base)
+        for b in list(ref):
+            if isinstance(ref[b], (list, tuple)) and ref[b] and ref[b][0] == "error":
+                ctx.violation("C07|measure|fresh_cache_in_fresh_process|raises", dict(binning=b, error=ref[b][1]))
+                ref[b] = None
+        ctx.require(sum(v is not None for v in ref.values()) >= 3, "no reference measurements from fresh processes")
+        ctx.require(ref["A@k1"] != ref["A@k2"] and ref["A"] != ref["A@s"], "configuration variants do not change the measurement (vacuous)")
+        # ... and the same on fresh cache copies one after the other in THIS process
+        for b in names + list(cw.VARIANTS):
+            ctx.evaluated(1, ("fresh_copy_same_process", b))
             try:
-                ref[b] = cw.measure(data.copy_cache(src, base / "tmp_ref"), b, aux)
+                got = cw.measure(data.copy_cache(src, base / "tmp_ref"), b, aux)
             except Exception as exc:  # noqa: BLE001 - a measurement on a FRESH copy of the cache must work
                 ctx.violation(f"C07|measure|fresh_cache_after_other_measurements_in_the_same_process|raises_{type(exc).__name__}",
-                              dict(binning=b, error=repr(exc)[:300], note="reference measurements run one after the other on fresh cache copies at the same path"))
-                ref[b] = None
+                              dict(binning=b, error=repr(exc)[:300], note="measurements run one after the other on fresh cache copies at the same path"))
+                continue
+            if ref[b] is not None and got != ref[b]:
+                ctx.violation("C07|measure|fresh_cache_after_other_measurements_in_the_same_process|result_differs_from_fresh_process", dict(binning=b))
         fresh_trees = {}
         for b in names:
             d = data.copy_cache(src, base / "tmp_ref")
@@ -185,10 +204,11 @@ def run(ctx) -> None:
             work = data.copy_cache(src, base / "work")
             cat = yaw.Catalog(work, max_workers=1)
             model_marker = ["absent"] * cw.NPATCH
-            nontrivial = len({b for _, b, _ in h}) > 1
+            nontrivial = len({x for _, x, _ in h}) > 1
             ctx.evaluated(1, tuple(h) if nontrivial else None)
             ctx.validated(1)
-            for si, (op, b, force) in enumerate(h):
+            for si, (op, cfgname, force) in enumerate(h):
+                b = cw.base(cfgname)
                 if rng.random() < 0.3:
                     cat = yaw.Catalog(work, max_workers=1)  # reopen
                 before = [(work / f"patch_{p}" / "trees.pkl").stat().st_mtime_ns if (work / f"patch_{p}" / "trees.pkl").exists() else None
@@ -205,18 +225,20 @@ def run(ctx) -> None:
                         parallel_build(cat, b, force, aux)
                         got = None
                     else:
-                        got = cw.measure(work, b, aux)
+                        got = cw.measure(work, cfgname, aux)
                 except Exception as exc:  # noqa: BLE001
                     ctx.violation(f"C07|{op}|history_raises_{type(exc).__name__}", dict(history=h, step=si, error=repr(exc)[:300]))
                     break
-                if op == "use" and ref[b] is not None and got != ref[b]:
+                if op == "use" and ref[cfgname] is not None and got != ref[cfgname]:
                     prev = [x for x in h[:si]]
                     kind = "same_edges_other_closed_side" if any({pb, b} == {"A", "A2"} for _, pb, _ in prev) else "other"
+                    if any(pb != cfgname and cw.base(pb) == b for _, pb, _ in prev):
+                        kind = "same_binning_other_scales_or_cosmology"
                     if any(o == "ibuild" for o, _, _ in prev):
                         kind = "interrupted_build"
                     if any(o == "pbuild" for o, _, _ in prev):
                         kind = "build_in_worker_processes"
-                    ctx.violation(f"C07|measure|after_{kind}|result_differs_from_fresh_cache", dict(history=h, step=si, binning=b))
+                    ctx.violation(f"C07|measure|after_{kind}|result_differs_from_fresh_cache", dict(history=h, step=si, binning=cfgname))
                     break
                 # projection of the real cache vs the model state
                 if op == "ibuild":
